@@ -72,7 +72,7 @@ class Tlc:
 
 
 def tlc(module, cfg=None, *, name, wd, workers=4, env=None, simulate=None, depth=None, coverage=False,
-        timeout=3600, xmx="4g", deque=False, extra=()):
+        timeout=1500, xmx="4g", deque=False, extra=()):
     """Run TLC on spec/<...>/<module>.tla. Returns a Tlc result; raises ToolError on timeout/crash."""
     mod_path = None
     for d in ("gen", "trace", "mc", "sys", "lib"):
